@@ -21,6 +21,6 @@ for p in "$@"; do
   case $rc in
     1) echo "$p: CAUGHT  $(echo "$out" | grep -c '^VIOLATION') violation lines; $(echo "$out" | grep -m1 '^  \[' | cut -c1-260)";;
     0) echo "$p: MISSED  ($(echo "$out" | tail -1 | cut -c1-160))";;
-    *) echo "$p: UNDECIDED (exit $rc) $(echo "$out" | tail -2 | cut -c1-300)";;
+    *) echo "$p: UNDECIDED (exit $rc) $(echo "$out" | tail -2 | cut -c1-300)"; echo "$out" > /tmp/undecided-$p-$$.log;;
   esac
 done
